@@ -134,6 +134,8 @@ export class RangeListManager {
             const k = `${key}--${inc}`
             keyMap[k] = index
             rawKeys[index] = k
+            // (the converted key is a shared key as well: `diff` looks the converted keys up)
+            sharedKeyMap[k] = items
           }
         }
       }
